@@ -178,6 +178,15 @@ func worldOK(o *Obs) bool {
 			return false
 		}
 	}
+	// HEAD damaged so that it names `.` or `..` (or a path through them): beneath refs/heads that is a directory, which the
+	// implementation fails to read where the model sees "no such branch file" — outside the modelled domain
+	if b, ok := o.headBranch(); ok {
+		for _, comp := range strings.Split(b, "/") {
+			if comp == "." || comp == ".." {
+				return false
+			}
+		}
+	}
 	return total <= 300000
 }
 
@@ -216,6 +225,23 @@ func clockReadings(pre, post *Obs) []string {
 		f := strings.Fields(parseCommit(post.Objects[id].Data).Author)
 		if len(f) >= 2 {
 			ts = append(ts, f[len(f)-2])
+		}
+	}
+	if len(newCommits) == 0 && bytes.HasPrefix(post.LogHead, pre.LogHead) {
+		// a commit whose object was already stored (the same tree, parent, identity, message and second as an earlier
+		// one) writes no new object: its clock reading is the author time of the object the new `commit` record names
+		for _, l := range strings.Split(string(post.LogHead[len(pre.LogHead):]), "\n") {
+			i := strings.IndexByte(l, '\t')
+			if i < 0 || !strings.HasPrefix(l[i+1:], "commit") {
+				continue
+			}
+			if f := strings.Fields(l[:i]); len(f) >= 2 {
+				if x, ok := post.Objects[f[1]]; ok && x != nil && x.OK && x.Kind == "commit" {
+					if a := strings.Fields(parseCommit(x.Data).Author); len(a) >= 2 {
+						ts = append(ts, a[len(a)-2])
+					}
+				}
+			}
 		}
 	}
 	ts = append(ts, logTimes(pre.LogHead, post.LogHead)...)
